@@ -216,20 +216,17 @@ def sessionEnd (a : ExecAsm) (s : Session) : Option (ExecAsm × Out) :=
   if s.prev > s.cursor ∨ s.cursor > s.buf.length then none else
   let restore (a : ExecAsm) (buf : List Byte) : ExecAsm :=
     { a with mem := { a.mem with map := buf ++ a.mem.map.drop a.mem.len } }
-  match s.error with
-  | some e => some (restore a s.buf, .err e)
-  | none =>
-    -- the modifier's loops use the shared label and relocation registries but its own error slot (already checked)
-    let (c, buf, madd, o) := ({ a.core with error := none } : Core).encodeRelocs s.buf 0 a.mem.addr
-    let a1 := { a with core := { c with error := a.core.error } }
-    match o with
-    | .panic => none
-    | .ok =>
-      let newM : Managed := (Managed.addAll s.newManaged madd)
-      let old := a1.managed.removeBetween s.prev s.cursor
-      let merged := newM.foldl (fun (acc : Managed) e => acc.add e.2) old
-      some (restore { a1 with managed := merged } buf, .ok)
-    | e => some (restore a1 buf, e)
+  -- the modifier's loops use the shared label and relocation registries but its own error slot
+  let (c, buf, madd, o) := ({ a.core with error := s.error } : Core).encodeRelocs s.buf 0 a.mem.addr true
+  let a1 := { a with core := { c with error := a.core.error } }
+  match o with
+  | .panic => none
+  | .ok =>
+    let newM : Managed := (Managed.addAll s.newManaged madd)
+    let old := a1.managed.removeBetween s.prev s.cursor
+    let merged := newM.foldl (fun (acc : Managed) e => acc.add e.2) old
+    some (restore { a1 with managed := merged } buf, .ok)
+  | e => some (restore a1 buf, e)
 
 def stepSession (m : Machine) (a : ExecAsm) (s : Session) (op : Op) : Machine × Ans :=
   let put (a : ExecAsm) (s : Session) : Machine := { m with front := .exec a, mode := .session s }
